@@ -5,5 +5,6 @@ cd "$(dirname "$0")"
 for spec in bn254:bn254:BN254 bls12-377:bls12_377:BLS12_377 bls12-381:bls12_381:BLS12_381 bls24-315:bls24_315:BLS24_315 \
             bls24-317:bls24_317:BLS24_317 bw6-633:bw6_633:BW6_633 bw6-761:bw6_761:BW6_761; do
   path=${spec%%:*}; rest=${spec#*:}; id=${rest%%:*}; hash=${rest#*:}
-  sed -e "s/__PATH__/$path/g" -e "s/__NAME__/$path/g" -e "s/__HASH__/$hash/g" c18_curve.go.tmpl > c18_$id.go
+  sed -e "s/__PATH__/$path/g" -e "s/__NAME__/$path/g" -e "s/__HASH__/$hash/g" -e "s/__ID__/$id/g" c18_curve.go.tmpl > c18_$id.go
+  gofmt -w c18_$id.go
 done
